@@ -639,6 +639,18 @@ func verifMaybeUnencodable() any {
 	return nil
 }
 
+// verifAgeFile: an existing file is as old as the solver chose its modification time to be (if the code asked at all)
+func verifAgeFile(name string) {
+	for _, it := range verifDoc.Vector {
+		if it.Kind == "ext-int" && it.Tag == "mtime" {
+			if n, err := strconv.ParseInt(it.Val, 10, 64); err == nil {
+				os.Chtimes(name, time.Unix(0, n), time.Unix(0, n))
+			}
+			return
+		}
+	}
+}
+
 // environment faults chosen by the solver that a native stand-in can act out. "ext-fail-on" records carry the input on
 // which the modelled operation failed (the model makes failure a deterministic function of the input), so natively the
 // stand-in fails on exactly those inputs.
